@@ -335,7 +335,19 @@ def _add(module: Module, val: ModuleAttr) -> ModuleAttr:
     else:
         # The next line *should* never be reached, as outer layers should have checked `_is_module_attr`.
         # Nonetheless gotta raise an error if we get here, somehow.
-        _attr_type_error(val)
+        _attr_type_error(module, val)
+
+    # If this name is being re-used, remove its prior holder from every other type-specific container
+    for ctr in (
+        module.ports,
+        module.signals,
+        module.instances,
+        module.instarrays,
+        module.instbundles,
+        module.bundles,
+    ):
+        if ctr is not type_ctr:
+            ctr.pop(val.name, None)
 
     # Add it to the module namespace, and the type-specific container
     type_ctr[val.name] = val
